@@ -144,25 +144,32 @@ theorem processModelData_good (base num offset : Nat) (sizes : List Nat) (h : nu
 def sumFst (l : List (Nat × Nat)) : Nat := (l.map Prod.fst).sum
 
 theorem lodLoop_good (base : Nat) :
-    ∀ (vs is : List (Nat × Nat)) (sizes : List Nat), sumFst vs + sumFst is ≤ sizes.length →
-      PGood (lodLoop infl base vs is sizes) := by
+    ∀ (vs es is : List (Nat × Nat)) (sizes : List Nat),
+      sumFst vs + sumFst es + sumFst is ≤ sizes.length →
+      PGood (lodLoop infl base vs es is sizes) := by
   intro vs
   induction vs with
-  | nil => intro is sizes _; unfold lodLoop; exact PGood.pure _
+  | nil => intro es is sizes _; unfold lodLoop; exact PGood.pure _
   | cons v vs ih =>
-    intro is sizes h
-    cases is with
+    intro es is sizes h
+    cases es with
     | nil => unfold lodLoop; exact PGood.pure _
-    | cons i is =>
-      obtain ⟨vn, vo⟩ := v
-      obtain ⟨inum, io⟩ := i
-      unfold lodLoop
-      simp only [sumFst, List.map_cons, List.sum_cons] at h
-      obtain ⟨g1, q1⟩ := processModelData_good infl base vn vo sizes (by omega)
-      apply PGood.bind_post g1 q1; intro s1 hs1
-      obtain ⟨g2, q2⟩ := processModelData_good infl base inum io s1 (by omega)
-      apply PGood.bind_post g2 q2; intro s2 hs2
-      exact ih is s2 (by simp only [sumFst]; omega)
+    | cons e es =>
+      cases is with
+      | nil => unfold lodLoop; exact PGood.pure _
+      | cons i is =>
+        obtain ⟨vn, vo⟩ := v
+        obtain ⟨en, eo⟩ := e
+        obtain ⟨inum, io⟩ := i
+        unfold lodLoop
+        simp only [sumFst, List.map_cons, List.sum_cons] at h
+        obtain ⟨g1, q1⟩ := processModelData_good infl base vn vo sizes (by omega)
+        apply PGood.bind_post g1 q1; intro s1 hs1
+        obtain ⟨g2, q2⟩ := processModelData_good infl base en eo s1 (by omega)
+        apply PGood.bind_post g2 q2; intro s2 hs2
+        obtain ⟨g3, q3⟩ := processModelData_good infl base inum io s2 (by omega)
+        apply PGood.bind_post g3 q3; intro s3 hs3
+        exact ih es is s3 (by simp only [sumFst]; omega)
 
 theorem u16Table_length : ∀ (n : Nat) (raw : Bytes), raw.length = n * 2 → (u16Table raw).length = n := by
   intro n
@@ -280,6 +287,7 @@ theorem readModel_good (offset : Nat) (fi : FileInfo) (m : ModelInfo) (hm : Smal
     apply lodLoop_good
     have a1 := sumFst_zip_le m.num.vertex m.offset.vertex
     have a2 := sumFst_zip_le m.num.index m.offset.index
+    have a3 := sumFst_zip_le m.num.edge m.offset.edge
     rw [hlen] at hs1; unfold sizesTotal at hs1
     omega
 
